@@ -21,7 +21,7 @@ def _funcs():
             m.VbsReader.__next__, m.Block1014.write, m.Unblock1014.read, i.dumps, i.loads]
 
 
-def roundtrip(nrec, enc, blocked, cfgs=None, shapes=None, maxvar1=-1, maxrec=False, many=None):
+def roundtrip(nrec, enc, blocked, cfgs=None, shapes=None, maxvar1=-1, maxrec=False, many=None, closes=1):
     def h():
         core.FUEL.set(30)
         m = M().mciipm
@@ -37,7 +37,7 @@ def roundtrip(nrec, enc, blocked, cfgs=None, shapes=None, maxvar1=-1, maxrec=Fal
 
         def rp():
             return {'kind': 'roundtrip', 'args': {'msgs': [msg_witness(mm, ee, ev) for mm, ee in recs], 'enc': enc, 'blocked': blocked, 'cfg': cfgs or 'packaged',
-                                                 'many': many}}
+                                                 'many': many, 'closes': closes}}
         core.set_fallback(rp, 'C06/concretised')
         if maxrec:
             # messages up to the configured maximum record length (larger ones cannot be read back by design)
@@ -52,7 +52,8 @@ def roundtrip(nrec, enc, blocked, cfgs=None, shapes=None, maxvar1=-1, maxrec=Fal
             else:
                 for msg, _ in recs:
                     w.write(dict(msg))
-            w.close()
+            for _ in range(closes):
+                w.close()
         got = []
         with guard('IpmReader', 'C06/read-exception', rp):
             for d in m.IpmReader(f, encoding=enc, blocked=blocked, iso_config=cfgs):
@@ -197,6 +198,9 @@ def obligations(tier):
                               'two messages, any two shapes, variable lengths up to 400', _funcs))
     obs.append(Ob('rt1/custom-config/cp500/1014', roundtrip(1, 'cp500', True, cfgs=GENERIC['g-var']), 300, 'caller-supplied configuration g-var', _funcs))
     obs.append(Ob('rt2/custom-config-decimal/cp500/1014', roundtrip(2, 'cp500', True, cfgs=GENERIC_DEC), 300, 'caller-supplied configuration with decimal fields (values from a concrete family incl. zero)', _funcs))
+    for blocked in (True, False):
+        obs.append(Ob('rt1/closed-twice/cp500/%s' % ('1014' if blocked else 'vbs'), roundtrip(1, 'cp500', blocked, closes=2), 300,
+                      'one message, the writer closed twice (as an explicit close() inside a with block does)', _funcs))
     obs.append(Ob('rt2/custom-config/write_many-list/cp037/1014', roundtrip(2, 'cp037', True, cfgs=GENERIC['g-typed'], many='list'), 300,
                   'caller-supplied configuration g-typed, the records handed over with write_many(list)', _funcs))
     obs.append(Ob('rt2/custom-config/write_many-generator/latin_1/vbs', roundtrip(2, 'latin_1', False, cfgs=GENERIC['g-var'], many='generator'), 300,
